@@ -799,6 +799,21 @@ def rule_noprint(ctx, sig, body, arg):
     return sig, body
 
 
+def rule_mapcollect2(ctx, sig, body, arg):
+    """@rule mapcollect2 <ElemType>: `let V = X .into_iter() .map(F) .collect::<Vec<_>>();` (F a function path, X a Vec of Copy items)
+    -> `let mc__src = X; let mut V: Vec<ElemType> = Vec::new(); for mc__e in mc__src.iter() { V.push(F(*mc__e)); }`
+    (definition of into_iter + map + collect into a Vec: F applied to the items in order); Verus has no support for iterator adapters."""
+    ty = arg.strip()
+    pat = re.compile(r'let\s+(\w+)\s*=\s*([^;]+?)\s*\.into_iter\(\)\s*\.map\(\s*([\w:]+)\s*\)\s*\.collect::<Vec<_>>\(\);', re.S)
+    m = pat.search(body)
+    if not m:
+        raise RuleError('no `let v = x.into_iter().map(F).collect::<Vec<_>>();`')
+    v, x, f = m.group(1), m.group(2).strip(), m.group(3)
+    new = (f'let mc__src = {x};\n        let mut {v}: Vec<{ty}> = Vec::new();\n        for mc__e in mc__src.iter() {{\n            {v}.push({f}(*mc__e));\n        }}')
+    ctx.note('R-mapcollect', m.group(0), new)
+    return sig, body[:m.start()] + new + body[m.end():]
+
+
 def rule_nocallback(ctx, sig, body, arg):
     """R-callback (call sites of the public wrappers): the argument `&mut dont_track_progress` (the no-op observer) is dropped,
     matching the removal of the `progress_callback` parameter from the callee."""
